@@ -369,3 +369,23 @@ func vResolveVar() (int, []string) {
 //@   props C01
 //@   modifies anything
 //@   ensures[root-is-element] result1 == nil ==> result0 != nil && result0.Root != nil && result0.Root.Type == html.ElementNode
+
+// ---------------------------------------------------------------------------
+// C03: which declarations enter the cascade, and with which specificity. Every selector of a rule's
+// selector list that matches the element contributes the rule's declarations with ITS OWN
+// specificity and pseudo-element (so that the most specific matching selector of the list decides,
+// Selectors 4 §17 / css-cascade-4 §6.4.3), and nothing else is reported.
+//@ func (matcher).match
+//@   props C03
+//@   nopanic
+//@   requires element != nil && forall(r, 0, len(m), forall(s, 0, len(m[r].selector), m[r].selector[s] != nil))
+//@   modifies nothing
+//@   ensures[complete] forall(r, 0, len(m), forall(s, 0, len(m[r].selector), m[r].selector[s].Match(element) ==> exists(k, 0, len(out), out[k].specificity == m[r].selector[s].Specificity() && out[k].pseudoType == m[r].selector[s].PseudoElement() && out[k].payload == m[r].declarations)))
+//@   call append#1 assert sel.Match(element) && arg1[0].specificity == sel.Specificity() && arg1[0].pseudoType == sel.PseudoElement() && arg1[0].payload == mat.declarations
+//@   loop 1 invariant fresh(out) && rangeindex < len(m)
+//@   loop 1 invariant forall(r, 0, rangeindex + 1, forall(s, 0, len(m[r].selector), m[r].selector[s].Match(element) ==> exists(k, 0, len(out), out[k].specificity == m[r].selector[s].Specificity() && out[k].pseudoType == m[r].selector[s].PseudoElement() && out[k].payload == m[r].declarations)))
+//@   loop 1 decreases len(m) - rangeindex
+//@   loop 2 invariant fresh(out) && rangeindex < len(mat.selector) && rangeindex1 < len(m) && rangeindex1 >= 0 && mat == m[rangeindex1]
+//@   loop 2 invariant forall(r, 0, rangeindex1, forall(s, 0, len(m[r].selector), m[r].selector[s].Match(element) ==> exists(k, 0, len(out), out[k].specificity == m[r].selector[s].Specificity() && out[k].pseudoType == m[r].selector[s].PseudoElement() && out[k].payload == m[r].declarations)))
+//@   loop 2 invariant forall(s, 0, rangeindex + 1, mat.selector[s].Match(element) ==> exists(k, 0, len(out), out[k].specificity == mat.selector[s].Specificity() && out[k].pseudoType == mat.selector[s].PseudoElement() && out[k].payload == mat.declarations))
+//@   loop 2 decreases len(mat.selector) - rangeindex
